@@ -6,12 +6,13 @@ use std::fmt::Debug;
 use std::path::Path;
 use std::sync::Arc;
 use std::time::Instant;
-use tako::{Set, TaskGroup, TaskId};
+use tako::{Map, Set, TaskGroup, TaskId};
 use tokio::net::{TcpListener, TcpStream};
 use tokio::sync::mpsc::UnboundedSender;
 use tokio::sync::{Notify, mpsc};
 
 use crate::client::status::{Status, job_status};
+use crate::common::arraydef::IntArray;
 use crate::common::serverdir::ServerDir;
 use crate::server::event::Event;
 use crate::server::job::{Job, JobTaskState};
@@ -597,7 +598,7 @@ fn handle_worker_stop(
     let mut responses: Vec<(WorkerId, StopWorkerResponse)> = Vec::new();
 
     let worker_ids: Vec<WorkerId> = match selector {
-        IdSelector::Specific(array) => array.iter().map(|id| id.into()).collect(),
+        IdSelector::Specific(array) => select_ids(&array, state_ref.get().get_workers()),
         IdSelector::All => state_ref
             .get()
             .get_workers()
@@ -663,11 +664,43 @@ fn compute_job_detail(
     })
 }
 
+/// Maximal number of ids of a selector that are answered as unknown jobs (or workers)
+const MAX_IDS_NOT_FOUND: usize = 1024;
+
+/// Returns the ids selected by `array`.
+///
+/// The array comes from a client, and it may contain billions of ids (`1-4294967294` is a single
+/// range), while the handlers answer each selected id. Therefore, only the first
+/// `MAX_IDS_NOT_FOUND` selected ids that are not in `items` are returned when the array is
+/// larger than that; the time and the memory is then given by the size of `items`.
+fn select_ids<Id, T>(array: &IntArray, items: &Map<Id, T>) -> Vec<Id>
+where
+    Id: Copy + Ord + std::hash::Hash + From<u32> + Into<u32>,
+{
+    if array.id_count() as usize <= items.len() + MAX_IDS_NOT_FOUND {
+        return array.iter().map(|id| id.into()).collect();
+    }
+    let mut ids: Vec<Id> = items
+        .keys()
+        .copied()
+        .filter(|id| array.contains((*id).into()))
+        .collect();
+    ids.sort_unstable();
+    ids.extend(
+        array
+            .iter()
+            .map(Id::from)
+            .filter(|id| !items.contains_key(id))
+            .take(MAX_IDS_NOT_FOUND),
+    );
+    ids
+}
+
 fn get_job_ids(state: &State, selector: &IdSelector) -> Vec<JobId> {
     match &selector {
         IdSelector::All => state.jobs().map(|job| job.job_id).collect(),
         IdSelector::LastN(n) => state.last_n_ids(*n).collect(),
-        IdSelector::Specific(array) => array.iter().map(|id| id.into()).collect(),
+        IdSelector::Specific(array) => select_ids(array, state.get_jobs()),
     }
 }
 
@@ -688,9 +721,9 @@ fn compute_job_info(
             .filter_map(|id| state.get_job(id))
             .map(|j| j.make_job_info(include_running_tasks))
             .collect(),
-        IdSelector::Specific(array) => array
-            .iter()
-            .filter_map(|id| state.get_job(JobId::new(id)))
+        IdSelector::Specific(array) => select_ids(array, state.get_jobs())
+            .into_iter()
+            .filter_map(|id| state.get_job(id))
             .map(|j| j.make_job_info(include_running_tasks))
             .collect(),
     };
@@ -712,7 +745,7 @@ async fn handle_job_cancel(
             .map(|job_info| job_info.id)
             .collect(),
         IdSelector::LastN(n) => state_ref.get().last_n_ids(*n).collect(),
-        IdSelector::Specific(array) => array.iter().map(|id| id.into()).collect(),
+        IdSelector::Specific(array) => select_ids(array, state_ref.get().get_jobs()),
     };
 
     let mut responses: Vec<(JobId, CancelJobResponse)> = Vec::new();
@@ -736,7 +769,7 @@ async fn handle_job_close(
             .map(|job| job.job_id)
             .collect(),
         IdSelector::LastN(n) => state.last_n_ids(*n).collect(),
-        IdSelector::Specific(array) => array.iter().map(|id| id.into()).collect(),
+        IdSelector::Specific(array) => select_ids(array, state.get_jobs()),
     };
 
     let now = Utc::now();
@@ -829,7 +862,12 @@ fn handle_job_forget(
     state.try_release_memory();
     senders.server_control.try_release_memory();
 
-    let ignored = job_ids.len() - forgotten;
+    // `job_ids` does not have to contain all selected ids that do not belong to any job
+    let n_selected = match selector {
+        IdSelector::Specific(array) => job_ids.len().max(array.id_count() as usize),
+        IdSelector::All | IdSelector::LastN(_) => job_ids.len(),
+    };
+    let ignored = n_selected - forgotten;
 
     (
         ToClientMessage::ForgetJobResponse(ForgetJobResponse { forgotten, ignored }),
@@ -862,7 +900,7 @@ fn handle_worker_info(
     let state = state_ref.get();
 
     let worker_ids: Vec<WorkerId> = match selector {
-        IdSelector::Specific(array) => array.iter().map(|id| id.into()).collect(),
+        IdSelector::Specific(array) => select_ids(&array, state.get_workers()),
         IdSelector::All => state.get_workers().keys().copied().collect(),
         IdSelector::LastN(n) => {
             let mut ids: Vec<_> = state.get_workers().keys().copied().collect();
